@@ -475,6 +475,24 @@ Definition check_kmvp (input output : J) : verdict :=
   | _, _ => malformed
   end.
 
+(* big inputs: elements and ranks arrive in chunks (a single 10^5-element list literal overflows
+   coqc's parser stack) *)
+Definition check_kmvs (input output : J) : verdict :=
+  match input, output with
+  | JL [JI k; JL jchunks; JI _], JL [JS okt; JL [JF est; JL jranks]] =>
+      match omap jints jchunks, omap jfs jranks with
+      | Some echunks, Some rchunks =>
+          if negb (String.eqb okt "ok") then ok_verdict false false else
+          let k := Z.to_nat k in
+          let elems := List.concat echunks in
+          let ranks := List.concat rchunks in
+          let model := kmv_float (kmv_finish (kmv_build kltb keqb k ranks)) in
+          ok_verdict (fsame model est) (kmv_prop k elems ranks est)
+      | _, _ => malformed
+      end
+  | _, _ => malformed
+  end.
+
 Definition dec_ke (j : J) : option (Z * Z) :=
   match j with JL [JI k; JI e] => Some (k, e) | _ => None end.
 Definition dec_kest (j : J) : option (Z * float) :=
@@ -517,5 +535,6 @@ Definition check_C15 (kind : string) (input output : J) : verdict :=
   else if String.eqb kind "stat" then check_stat input output
   else if String.eqb kind "kmv" then check_kmv input output
   else if String.eqb kind "kmvp" then check_kmvp input output
+  else if String.eqb kind "kmvs" then check_kmvs input output
   else if String.eqb kind "kmvk" then check_kmvk input output
   else malformed.
